@@ -622,7 +622,7 @@ class EdgeFacts:
         if kind == "not":
             return self.boolean_facts(desc[1], not truth)
         if kind == "call":
-            return [("call", desc[1], desc[2], truth)]
+            return [("call", desc[1], desc[2], truth, desc[3])]
         if kind == "cmp":
             return [("cmp", desc[1], desc[2], desc[3], truth)]
         if kind == "bool":
